@@ -141,6 +141,7 @@ def run(tier="quick", seed=0):
     RNAME = {Cores: "Cores", SDRAM: "SDRAM"}
     st = {"ev": 0, "problems": 0, "skipped_inconsistent": 0, "success_clause_applies": 0, "returned": 0, "documented_error": 0}
     per_placer = {}
+    hung = {}
     counts = {}
     found = {}
     samples = []
@@ -298,6 +299,11 @@ def run(tier="quick", seed=0):
         for name, sds, call in configs:
             if only is not None and name not in only:
                 continue
+            if hung.get(name, 0) >= 3:
+                # this placer has failed to return three times in this run (each costs a minute): that is reported; it is not
+                # called again, so that the run ends and the other placers are still examined
+                st["skipped_after_hangs"] = st.get("skipped_after_hangs", 0) + 1
+                continue
             for sd in (sds if sds is not None else (None,)):
                 st["ev"] += 1
                 per_placer[name] = per_placer.get(name, 0) + 1
@@ -313,6 +319,7 @@ def run(tier="quick", seed=0):
                     finally:
                         signal.setitimer(signal.ITIMER_VIRTUAL, 0)
                 except _TooLong:
+                    hung[name] = hung.get(name, 0) + 1
                     record("does_not_return", "no result and no exception after 60 s of process time (calls on problems of this size take milliseconds)", p, name, sd)
                     continue
                 except (InsufficientResourceError, InvalidConstraintError) as e:
